@@ -18,6 +18,7 @@ import Retro.Props.C15.GridCapsule
 import Retro.Props.C15.Closed
 import Retro.Props.C15.ClosedEuler
 import Retro.Props.C15.ClosedPoles
+import Retro.Props.C15.ClosedCones
 import Mathlib.Tactic.Ring
 import Mathlib.Tactic.LinearCombination
 import Mathlib.Algebra.Field.Basic
